@@ -26,7 +26,7 @@ RefTexts ==
     {Recompose(P) : P \in
        {X \in {MkParts(s, a, p, q, f) :
                  s \in OptSet({<<115>>, <<83>>}),
-                 a \in OptSet(IF Big THEN {<<>>, <<104>>, <<37, 54, 56>>, <<117, 64, 104>>, <<104, 58, 56, 48>>, <<104, 58, 48, 56, 48>>, <<104, 58>>} ELSE {<<>>, <<104>>, <<37, 54, 56>>, <<104, 58, 56, 48>>}),
+                 a \in OptSet(IF Big THEN {<<>>, <<104>>, <<37, 54, 56>>, <<117, 64, 104>>, <<104, 58, 56, 48>>, <<104, 58, 48, 56, 48>>, <<104, 58>>, <<91, 58, 58, 97, 93>>, <<91, 58, 58, 65, 93>>} ELSE {<<>>, <<104>>, <<37, 54, 56>>, <<104, 58, 56, 48>>, <<91, 58, 58, 97, 93>>, <<91, 58, 58, 65, 93>>}),
                  p \in VEqRefPath,
                  q \in OptSet(IF Big THEN {<<>>, <<113>>, <<37, 55, 49>>, <<37, 56, 48>>} ELSE {<<>>, <<113>>, <<37, 55, 49>>}),
                  f \in OptSet(IF Big THEN {<<>>, <<102>>, <<37, 54, 54>>} ELSE {<<>>, <<102>>})} :
